@@ -13,6 +13,31 @@ use std::io::{BufRead, BufReader, Write};
 use std::process::{Command, Stdio};
 use std::time::{Duration, Instant};
 
+static IN_CHILD: std::sync::atomic::AtomicBool = std::sync::atomic::AtomicBool::new(false);
+static LAST_BEAT_MS: std::sync::atomic::AtomicU64 = std::sync::atomic::AtomicU64::new(0);
+
+/// Heartbeat of a worker process: called by the engines between executions;
+/// prints `HB` at most twice a second.  A child that stays silent for longer
+/// than the stall limit is treated as hung (busy loop or blocked forever).
+pub fn beat() {
+    use std::sync::atomic::Ordering;
+    if !IN_CHILD.load(Ordering::Relaxed) {
+        return;
+    }
+    let now = std::time::SystemTime::now()
+        .duration_since(std::time::UNIX_EPOCH)
+        .map(|d| d.as_millis() as u64)
+        .unwrap_or(0);
+    let last = LAST_BEAT_MS.load(Ordering::Relaxed);
+    if now.saturating_sub(last) >= 500 {
+        LAST_BEAT_MS.store(now, Ordering::Relaxed);
+        let out = std::io::stdout();
+        let mut l = out.lock();
+        let _ = writeln!(l, "HB");
+        let _ = l.flush();
+    }
+}
+
 #[derive(Default)]
 pub struct JsonAcc {
     pub counters: BTreeMap<String, u64>,
@@ -163,6 +188,7 @@ pub fn child_main<F: FnMut(Tier, usize, &mut JsonAcc) + Send + 'static>(
             return 2;
         }
     };
+    IN_CHILD.store(true, std::sync::atomic::Ordering::Relaxed);
     // keep freed memory in the process: without this glibc trims the arena of
     // the worker thread with madvise() after almost every execution
     unsafe {
@@ -334,7 +360,11 @@ pub fn parent(ctx: &Ctx, n_items: usize, budget_s: f64, slugs: &[&'static str]) 
     let mut crashes = Vec::new();
     let handles: Vec<_> = children
         .into_iter()
-        .map(|(lo, c)| std::thread::spawn(move || (lo, drive_child(c, hard, None))))
+        .map(|(lo, c)| {
+            // workers print a heartbeat between executions: 40 s of silence
+            // means an execution does not return
+            std::thread::spawn(move || (lo, drive_child(c, hard, Some(Duration::from_secs(40)))))
+        })
         .collect();
     let mut failed = Vec::new();
     for h in handles {
@@ -345,7 +375,19 @@ pub fn parent(ctx: &Ctx, n_items: usize, budget_s: f64, slugs: &[&'static str]) 
         }
     }
     // re-run failed slices in trace mode to find the execution responsible
-    for (lo, how) in failed {
+    // (in parallel; at most 4 slices are traced, the others are reported
+    // with what is known — one located execution is enough for a verdict)
+    let mut traced = Vec::new();
+    for (k, (lo, how)) in failed.into_iter().enumerate() {
+        if k >= 4 {
+            crashes.push(Crash {
+                lo,
+                how: format!("{how} (not re-traced: 4 other slices were)"),
+                last_item: None,
+                last_exec: None,
+            });
+            continue;
+        }
         let a = ChildArgs {
             tier: ctx.tier,
             seed: ctx.seed,
@@ -355,10 +397,17 @@ pub fn parent(ctx: &Ctx, n_items: usize, budget_s: f64, slugs: &[&'static str]) 
             trace: true,
             budget_s: budget_s * 4.0,
         };
-        let (acc, last_item, last_exec, how2) = match spawn_child(ctx.id, &a) {
-            Ok(c) => drive_child(c, Duration::from_secs_f64(budget_s * 8.0 + 120.0), Some(Duration::from_secs(30))),
-            Err(e) => (None, None, None, Some(format!("cannot spawn: {e}"))),
-        };
+        let id = ctx.id;
+        traced.push(std::thread::spawn(move || {
+            let r = match spawn_child(id, &a) {
+                Ok(c) => drive_child(c, Duration::from_secs_f64(budget_s * 8.0 + 120.0), Some(Duration::from_secs(20))),
+                Err(e) => (None, None, None, Some(format!("cannot spawn: {e}"))),
+            };
+            (lo, how, r)
+        }));
+    }
+    for h in traced {
+        let (lo, how, (acc, last_item, last_exec, how2)) = h.join().expect("trace driver thread");
         match (acc, how2) {
             (Some(v), None) => {
                 // did not reproduce: machinery problem, not a verdict
